@@ -256,6 +256,51 @@ def check_sens_deriv(ctx, case):
                  f'derivative with n_coeffs_deriv differs from finite differences by {e:.3g}')
 
 
+def check_history_resonant(ctx, case):
+    """derivatives on a grid that contains omega = 0 and exact level splittings of segments (where the
+    first-order integral takes its limit value): the same from a fresh pulse, from a pulse that has
+    already served the control matrix on that grid without intermediates, and from one with a
+    random cache history (finite differences are not used here: at a removable singularity their
+    noise is amplified by 1/h)"""
+    desc = case['desc']
+    rng = np.random.default_rng(case['seed'])
+    H = gens.seg_hamiltonians(desc)
+    gaps = []
+    for h in H:
+        ev = np.linalg.eigvalsh(h)
+        gaps += [float(x) for x in np.subtract.outer(ev, ev).ravel() if abs(x) > 1e-3]
+    omega = np.array([0.0] + list(rng.choice(gaps, min(3, len(gaps)), replace=False) if gaps else [])
+                     + list(rng.uniform(0.1, 4, 2)))
+    S = 1/(1 + omega**2)
+    fresh = gens.build(desc)
+    with np.errstate(all='ignore'):
+        dF = fresh.get_filter_function_derivative(omega)
+        dI = gradient.infidelity_derivative(gens.build(desc), S, omega)
+    ctx.count(('hres', case['seed'], len(omega)))
+    if not (np.all(np.isfinite(dF)) and np.all(np.isfinite(dI))):
+        return      # (non-finite gradients are the business of gradient_finite / F12)
+    variants = []
+    q = gens.build(desc)
+    q.get_control_matrix(omega)
+    variants.append(('control matrix served before, no intermediates', q))
+    q = gens.build(desc)
+    ff.infidelity(q, S, omega)
+    variants.append(('infidelity served before', q))
+    variants.append(('random cache history', gens.build_used(desc, rng, 1.0, len(omega), omega,
+                                                             touch_kinds=('cm', 'ff1', 'phases'))))
+    for what, q in variants:
+        with np.errstate(all='ignore'):
+            dFq = q.get_filter_function_derivative(omega)
+            dIq = gradient.infidelity_derivative(q, S, omega)
+        eF, eI = gens.abs_err(dFq, dF, 1e-12), gens.abs_err(dIq, dI, 1e-14)
+        if not (eF <= 1e-8 and eI <= 1e-8):
+            ctx.fail('gradient_after_history', case, {'ff_derivative': eF, 'infidelity_derivative': eI},
+                     'the derivatives of a fresh pulse', {},
+                     f'grid with omega = 0 and exact resonances: derivatives of a pulse ({what}) differ '
+                     f'from those of a fresh pulse by {eF:.3g} / {eI:.3g}')
+            return
+
+
 def check_grey_zone(ctx, case):
     """kernel-level witness of the open finding F30: level splitting between one and two (absolute)
     thresholds at a nearly resonant frequency — the two first-order limits of `_derivative_integral`
@@ -299,6 +344,8 @@ def replay(ctx, check, case):
         return check_sens_deriv(ctx, case)
     if 'split' in case:
         return check_grey_zone(ctx, case)
+    if check == 'gradient_after_history' and 'omega' not in case:
+        return check_history_resonant(ctx, case)
     check_gradient(ctx, case)
 
 
@@ -314,7 +361,11 @@ def search(ctx, deep=False):
         d = int(rng.choice([2, 2, 3]))
         desc = gens.rand_desc(rng, d=d, n_dt=int(rng.integers(1, 4)), n_c=int(rng.integers(1, 4)),
                               n_n=int(rng.integers(1, 3)), features=feats,
-                              basis=('pauli',) if d == 2 else ('ggm',))
+                              basis=[('pauli',) if d == 2 else ('ggm',),
+                                     ('custom', gens.signed_shuffled_basis(rng, d, True), True, 'Custom'),
+                                     ('custom', gens.rotated_basis(rng, d, False), False, 'Custom'),
+                                     ('derived', ('ggm',), 'permute', int(rng.integers(0, 2**31)))
+                                     ][int(rng.integers(0, 4)) if i % 2 else 0])
         if i % 4 == 1:
             desc['c_coeffs'] = np.asarray(desc['c_coeffs'])*0    # all amplitudes exactly zero
             desc['features'] = sorted(set(desc['features']) | {'all_zero'})
@@ -327,6 +378,7 @@ def search(ctx, deep=False):
             n_sel = list(rng.permutation(desc['n_ids'])[:k])
         check_gradient(ctx, {'desc': desc, 'omega': omega, 'c_sel': c_sel, 'n_sel': n_sel,
                              'seed': int(rng.integers(0, 2**31))})
+        check_history_resonant(ctx, {'desc': desc, 'seed': int(rng.integers(0, 2**31))})
         if i % 3 == 0:
             check_sens_deriv(ctx, {'desc': desc, 'omega': omega, 'seed': int(rng.integers(0, 2**31)),
                                    'zero_sens': bool(i % 6 == 0)})
